@@ -348,6 +348,37 @@ def split_trace(path, chunk):
     return outs, lines
 
 
+EVAL_ERRORS = ("which is out of bounds", "not in the domain of the function", "Attempted to select field",
+               "Attempted to apply the function", "Attempted to access index", "to a non-record value",
+               "Attempted to compute the value of an expression of form")
+
+
+def unevaluable_step(out, chunk_path):
+    """The trace specifications are written to be total on everything the library can return, but a change of the
+    library may produce output of a SHAPE no clause anticipated (a result vector of the wrong length, a matrix with a
+    missing row) on which TLC stops with an evaluation error.  On the unchanged tree this never happens (every check
+    evaluates every step).  Such a step is reported as a verdict about that step (clause SPEC.unevaluable: the recorded
+    step is not a step of the specification), with the event attached - not as a tool failure.  Only evaluation errors
+    of the index / domain / field kind qualify, and only when the position in the trace can be read off TLC's last state;
+    the rest of the chunk after that step is not validated."""
+    if not any(k in out for k in EVAL_ERRORS):
+        return None
+    ms = re.findall(r"\bl \|-> (\d+)|/\\ l = (\d+)", out)
+    if not ms:
+        return None
+    line = max(int(a or b) for a, b in ms)
+    try:
+        n = sum(1 for _ in open(chunk_path))
+    except OSError:
+        return None
+    if not 1 <= line <= n:
+        return None
+    i = out.find("Attempted")
+    msg = " ".join(out[i:i + 300].split()) if i >= 0 else "evaluation error"
+    return {"lines": n, "consumed": n, "cov": {}, "unevaluable": True,
+            "bad": [{"line": line, "clause": "SPEC.unevaluable", "op": "?", "stratum": "-", "err": msg, "tol": "every recorded step must be a step of the specification"}]}
+
+
 def validate_chunk(module, cfg, chunk_path, workdir, timeout):
     verdict = chunk_path + ".verdict.json"
     if os.path.exists(verdict):
@@ -356,6 +387,10 @@ def validate_chunk(module, cfg, chunk_path, workdir, timeout):
     if r["rc"] != 0 or not os.path.exists(verdict):
         # one retry (a rejection / failure is only believed if it repeats)
         r = run_tlc(module, cfg, workdir, env={"TRACE": chunk_path, "VERDICT": verdict}, timeout=timeout)
+    if r["rc"] != 0 or not os.path.exists(verdict):
+        v = unevaluable_step(r["out"], chunk_path)
+        if v is not None:
+            return v, r
     if r["rc"] != 0 or not os.path.exists(verdict):
         out = r["out"]
         i = out.find("Error:")
